@@ -18,7 +18,7 @@ RULE = ('Engine A: lattice of experiment frames (5 shapes x noise patterns x n_p
         'cooldown in {0,2} x use_cooldown) x ALL layout variants (geos per group 1-3 with dyadic splits, extra unassigned '
         'geo, unassigned-period dates, 3 row orders, custom column names / group labels, custom non-monotone period labels, and the analysis object in a NON-INITIAL state: already fitted to another experiment and asked for its reports) x summary settings (level in '
         '{0.2,0.5,0.8,0.9,0.95} x tails x threshold in {0,+-c} x rescale in {0.5,1,4} x report in {last,all}; quick uses '
-        'a 32-setting sub-grid, thorough all 180). Oracle: degrees of freedom, location and scale on EVERY analysed '
+        'a 56-setting sub-grid incl. rescale != 1 with threshold != 0, thorough all 180). Oracle: degrees of freedom, location and scale on EVERY analysed '
         'day against the closed form (OLS + Kerman 2017 eq. 5), also through causal_cumulative_distribution(time, rescale) for every combination of day index in {0, middle, last, -1} x rescale in {1, 0.25, 3}; every layout variant gives the identical distribution; '
         'summary rows: lower = ppf(alpha), upper = ppf(1-alpha) or +inf, precision = estimate - lower, probability = '
         '1 - cdf(threshold), lower <= estimate <= upper (ordering only for levels > 0.5 when tails = 1, scope S1); '
@@ -39,6 +39,8 @@ SETTINGS_ALL = [dict(level=l, tails=t, threshold=th, rescale=r, report=rep) for 
                 for th in (0.0, 25.0, -40.0) for r in (0.5, 1.0, 4.0) for rep in ('last', 'all')]
 SETTINGS_Q = [s for i, s in enumerate(SETTINGS_ALL) if (s['rescale'] == 1.0 or (s['threshold'] == 0.0 and s['report'] == 'last'))
               and (s['report'] == 'all' or s['threshold'] != 25.0)][:40]
+# ... plus the combinations of a rescale factor != 1 WITH a threshold != 0 (probability of the RESCALED effect)
+SETTINGS_Q += [s for s in SETTINGS_ALL if s['rescale'] != 1.0 and s['threshold'] != 0.0 and s['level'] in (0.5, 0.9) and s['report'] == 'last']
 
 
 def cases(tier, seed):
